@@ -33,6 +33,23 @@ def header_form(m):
     return "w%d raw%d" % (wb[1], mn + 4)
 
 
+def is_large_format(m):
+    wb = read_wbits(m)
+    return bool(wb and wb[1] == 14)
+
+
+def mixed_large_window(init, ms):
+    """do the members the concatenator processes (>= 5 bytes), together with a window override,
+    mix the large-window stream format with the RFC 7932 one?"""
+    kinds = set()
+    if init != "new":
+        kinds.add(int(init[1:]) > 24)
+    for m in ms:
+        if len(m["bytes"]) >= 5:
+            kinds.add(is_large_format(m["bytes"]))
+    return len(kinds) > 1
+
+
 def enc_pool(run, tools, thorough):
     rng = run.rng
     cs = contents(rng, thorough)
@@ -51,6 +68,13 @@ def enc_pool(run, tools, thorough):
             jobs.append((c, q, lg, fl + "c"))
             if rng.random() < 0.5:
                 jobs.append((c, q, lg, fl + "a"))
+    # many small members at the widest windows, so that every end-marker bit offset is available as
+    # a predecessor for every header form
+    text = cs[12] + cs[13] + cs[14] + b" The quick brown fox jumps over the lazy dog; pack my box with five dozen liquor jugs."
+    for i in range(90 if thorough else 48):
+        c = text[i % 7:(i % 7) + 1 + (i * 5) % 61]
+        jobs.append((c, rng.choice([2, 5, 9]), 24, rng.choice(["a", "c", "mc"])))
+        jobs.append((c, rng.choice([3, 5, 9]), 30, "l" + rng.choice(["a", "c", "mc"])))
     res = tools.impl([enc_line(q, lg, fl, c) for (c, q, lg, fl) in jobs])
     pool, bad = [], []
     for (c, q, lg, fl), r in zip(jobs, res):
@@ -79,9 +103,36 @@ def hand_pool(rng, thorough):
     return out
 
 
-def gen_lists(run, pool, thorough):
+def systematic_lists(run, pool):
+    """every end-marker bit offset (0-7) of the previous member x every header form of the next
+    one, with and without a trailing empty member (which makes finish() re-append the marker)"""
     rng = run.rng
     lists = []
+    forms = {}
+    for p in pool:
+        if p["catable"]:
+            forms.setdefault((header_form(p["bytes"]), is_large_format(p["bytes"])), []).append(p)
+    for large in (False, True):
+        prevs = {}
+        for p in pool:
+            if len(p["bytes"]) >= 5 and len(p["bytes"]) < 3000 and is_large_format(p["bytes"]) == large and p["lgwin"] == (30 if large else 24):
+                prevs.setdefault(end_offset(p["bytes"]), []).append(p)
+        shorts = [p for p in pool if len(p["bytes"]) < 5 and p["catable"]]
+        for o in sorted(k for k in prevs if k is not None):
+            for (hf, lg), cands in sorted(forms.items()):
+                if lg != large and not hf.startswith("short"):
+                    continue
+                prev, nxt = rng.choice(prevs[o]), rng.choice(cands)
+                if len(nxt["bytes"]) >= 5 and nxt["lgwin"] > prev["lgwin"]:
+                    continue
+                lists.append(("new", [prev, nxt]))
+                lists.append(("new", [prev, nxt, rng.choice(shorts)]))
+    return lists
+
+
+def gen_lists(run, pool, thorough):
+    rng = run.rng
+    lists = systematic_lists(run, pool)
     small = [p for p in pool if len(p["bytes"]) <= 400]
     n = 900 if thorough else 260
     by_off = {}
@@ -109,6 +160,10 @@ def gen_lists(run, pool, thorough):
         # declared windows must not grow along the list (the override counts as the first one);
         # members shorter than the look-ahead are skipped by the concatenator and do not count
         ms, cur = [], (int(init[1:]) if init != "new" else None)
+        if init != "new" and not first["catable"]:
+            # behind a window override the first member is shifted like any later one: it must be catable
+            cands = [m for m in src if m["catable"]]
+            first = rng.choice(cands)
         for m in [first] + rest:
             if len(m["bytes"]) >= 5:
                 if cur is not None and m["lgwin"] > cur:
@@ -119,6 +174,12 @@ def gen_lists(run, pool, thorough):
             continue
         if sum(len(m["bytes"]) for m in ms) > (3000000 if thorough else 400000):
             continue
+        # lists mixing the two stream formats are a known finding: keep them to one list in ten
+        if mixed_large_window(init, ms) and i % 10 != 0:
+            lg = [m for m in ms if len(m["bytes"]) < 5 or is_large_format(m["bytes"]) == (int(init[1:]) > 24 if init != "new" else is_large_format(ms[0]["bytes"]))]
+            ms = lg
+            if not ms or mixed_large_window(init, ms):
+                continue
         lists.append((init, ms))
     return lists
 
@@ -221,8 +282,8 @@ def check(run):
                     sizes[">=64KiB member"] += 1
         if why:
             nviol += 1
-            if nviol <= 5:
-                case = {"kind": "concat", "variant": var, "init": init, "member_kinds": [m["kind"] for m in ms], "member_sizes": [len(m["bytes"]) for m in ms],
+            if nviol <= 5 or mixed_large_window(init, ms):
+                case = {"kind": "concat", "variant": var, "init": init, "mixed_large_window": mixed_large_window(init, ms), "member_kinds": [m["kind"] for m in ms], "member_sizes": [len(m["bytes"]) for m in ms],
                         "content_sizes": [len(m["content"]) for m in ms], "end_offsets": [end_offset(m["bytes"]) for m in ms]}
                 if len(l) < 60000:
                     case["request"] = l
@@ -247,6 +308,7 @@ def check(run):
     run.cov["traces_validated_against_impl"] = len(lines)
     run.cov["bit_level_spec_applied"] = nspec_applied
     run.cov["member_lists"] = len(lists)
+    run.cov["lists_mixing_large_window_format"] = sum(1 for (i0, m0) in lists if mixed_large_window(i0, m0))
     run.cov["samples"] = [jobs[0][2][:300], jobs[len(jobs) // 2][2][:300], {"init": lists[-1][0], "members": [m["kind"] for m in lists[-1][1]]}]
     run.note("%d members in the pool, %d lists, %d runs, %d correspondence problems, %d violations, %d cells reached, %d unreached" %
              (len(pool), len(lists), len(lines), nbad, nviol, len(cells), len(unre)))
